@@ -7,19 +7,22 @@
 src="$1"; name="$2"; pid="$3"; crate="$4"; shift 4
 out=/tmp/seedres/$name; mkdir -p "$out"
 export CARGO_NET_OFFLINE=true
-cd /tmp/cw || exit 2
+wt="${WT:-/tmp/cw}"
+cd "$wt" || exit 2
 git checkout -q -- . ; rm -f crates/*/tests/zz_seed_demo.rs
 git apply "$src/patch.diff" || { echo "CONFIRM $name patch does not apply"; exit 2; }
 for id in "$pid" "$@"; do
-  VH_OUT=$out/vh-$id /verif/scripts/check_against.sh /tmp/cw "$id" --tier quick > "$out/detect_$id.log" 2>&1
+  [ "${NODETECT:-0}" = "1" ] && break
+  VH_OUT=$out/vh-$id /verif/scripts/check_against.sh "$wt" "$id" --tier quick > "$out/detect_$id.log" 2>&1
   echo "DETECT $name $id rc=$? $(grep -c '^VIOLATION' "$out/detect_$id.log") violations: $(grep '^VIOLATION' "$out/detect_$id.log" | sed 's/.*signature=//' | head -3 | tr '\n' ' ')"
 done
+if [ "${NOCONFIRM:-0}" = "1" ]; then git checkout -q -- .; exit 0; fi
 mkdir -p "crates/$crate/tests"; cp "$src/demo.rs" "crates/$crate/tests/zz_seed_demo.rs"
 cargo test -p "$crate" ${FEATURES:+--features "$FEATURES"} --test zz_seed_demo --offline > "$out/demo_with.log" 2>&1; with_rc=$?
 rm -f "crates/$crate/tests/zz_seed_demo.rs"
 suite_rc=-1
 if [ "${NOSUITE:-0}" != "1" ]; then
-  cargo nextest run --workspace --no-fail-fast --test-threads 8 --offline > "$out/suite.log" 2>&1; suite_rc=$?
+  cargo nextest run --workspace --no-fail-fast --test-threads ${TT:-8} --offline > "$out/suite.log" 2>&1; suite_rc=$?
 fi
 git checkout -q -- .
 cp "$src/demo.rs" "crates/$crate/tests/zz_seed_demo.rs"
